@@ -153,8 +153,8 @@ theorem keepsEntry_tiVol (c : Cfg) (now : Time) (v : Vol) (h h0 : Hash) (req : T
     · exact keepsEntry_refl _ _ _
   · exact keepsEntry_refl _ _ _
 
-theorem keepsEntry_untrashVol (v : Vol) (h h0 : Hash) (D : Nat) (hne : h0 ≠ h) :
-    KeepsEntry h D v (untrashVol h0 v) := by
+theorem keepsEntry_untrashVol (v : Vol) (h h0 : Hash) (D : Nat) (now : Time) (hne : h0 ≠ h) :
+    KeepsEntry h D v (untrashVol h0 now v) := by
   unfold untrashVol
   split
   · exact keepsEntry_refl _ _ _
@@ -229,7 +229,7 @@ theorem hasEntry_step (c : Cfg) (s : St) (op : Op) (id : Nat) (h : Hash) (D : Na
     · exact hh
     · split
       · exact hh
-      · exact hasEntry_map (fun v _ => keepsEntry_untrashVol v h h0 D (hno h0 rfl)) hh
+      · exact hasEntry_map (fun v _ => keepsEntry_untrashVol v h h0 D _ (hno h0 rfl)) hh
   | emptyTrash =>
     simp only [step]
     exact hasEntry_map (fun v _ => keepsEntry_sweep c s.now v h D hD) hh
@@ -286,9 +286,7 @@ theorem untrash_restores (c : Cfg) (s : St) (id : Nat) (h : Hash) (D : Nat) (hh 
   obtain ⟨v, hv, hid, hro, e, he, heh, _⟩ := hh
   have hsome : (minEntry h v.trash).isSome = true := minEntry_isSome ⟨e, he, heh⟩
   have hhit : untrashHit h v = true := by
-    simp only [untrashHit, hro, Bool.not_false, Bool.true_and, Vol.untrash]
-    obtain ⟨m, hm⟩ := Option.isSome_iff_exists.mp hsome
-    simp [hm]
+    simp [untrashHit, hro, hsome]
   have hw : (writables s.vols).isEmpty = false := by
     have : v ∈ writables s.vols := by simp [writables, hv, hro]
     cases hws : writables s.vols with
@@ -299,10 +297,12 @@ theorem untrash_restores (c : Cfg) (s : St) (id : Nat) (h : Hash) (D : Nat) (hh 
     cases hfs : s.vols.filter (untrashHit h) with
     | nil => rw [hfs] at this; cases this
     | cons _ _ => rfl
-  have hstep : step c s (.untrash h) = ({ s with vols := s.vols.map (untrashVol h) }, .code 200) := by
+  have hstep : step c s (.untrash h) =
+      (({ vols := s.vols.map (fun v => untrashVol h (s.now + c.spread * v.id) v),
+          now := s.now + c.spread * s.vols.length, rr := s.rr } : St), Res.code 200) := by
     simp [step, hw, hf]
   rw [hstep]
-  refine ⟨rfl, untrashVol h v, List.mem_map_of_mem hv, ?_, ?_⟩
+  refine ⟨rfl, untrashVol h (s.now + c.spread * v.id) v, List.mem_map_of_mem (f := fun v => untrashVol h (s.now + c.spread * v.id) v) hv, ?_, ?_⟩
   · obtain ⟨m, hm⟩ := Option.isSome_iff_exists.mp hsome
     simp [untrashVol, hro, Vol.untrash, hm, Vol.setBlock, hid]
   · obtain ⟨m, hm⟩ := Option.isSome_iff_exists.mp hsome
